@@ -76,6 +76,7 @@ struct Plan
     std::string mode;              // sub-batch label (fault-free / faulty / ...)
     std::vector<PlanTask> tasks;
     std::vector<uint8_t> schedule;
+    bool hash_images = false;      // not serialised: set by the property's case function
 };
 
 js::Value to_json(const Plan& p);
